@@ -19,7 +19,9 @@ RULE = ('detect: contents written by the real writers (fasta, stockholm, gff, sj
         'mutations of them (truncation, whitespace, case, numeric edge literals, field-count changes, >1000-character prefixes) and '
         'adversarial near-misses for every sniffer; each at offset 0 or behind a junk prefix, through BytesIO / StringIO / binary file / '
         'text file / path, with sep / outfmt options.  ext: every declared extension and near misses.  resolve: names x archive option. '
-        'kw: keyword dicts through every shortcut.  non-trivial = distinct case that is detected as some format, or takes a non-plain '
+        'kw: keyword dicts through every shortcut.  extarg / wresolve: detect_ext on non-string arguments and the write-side decision '
+        '(to string / handle / file / archive, format from fmt or extension).  render: the writer / renderer models of the soundness '
+        'theorems (render_xsv, render_fasta, render_stockholm, render_gff, render_hits) against the real writers.  non-trivial = distinct case that is detected as some format, or takes a non-plain '
         'resolve branch, or carries a consumed keyword')
 TRUSTED = ['CPython io (TextIOWrapper/BytesIO/StringIO), gzip, shutil, glob, tempfile, zipfile/tarfile, pathlib: transports are '
            'differential-tested only (extra_checks), never proved',
@@ -37,6 +39,21 @@ ASSUMPTIONS = ['contents are printable ASCII plus tab and newline (no CR, no non
                'outfmt 10 needs sep=","',
                'URL fetching not exercised (offline)']
 
+MODELLED_FUNCS = {
+    'sugar/_io/main.py': ['_binary', '_file_opener', 'detect', 'detect_ext', '_resolve_archive', '_allow_to_str', '_resolve_fname'],
+    'sugar/_io/fasta.py': ['is_fasta'],
+    'sugar/_io/genbank.py': ['is_genbank'],
+    'sugar/_io/stockholm.py': ['is_stockholm'],
+    'sugar/_io/gff.py': ['is_gff'],
+    'sugar/_io/sjson.py': ['is_sjson'],
+    'sugar/_io/tab/blast.py': ['is_fts_blast', 'read_fts_blast'],
+    'sugar/_io/tab/mmseqs.py': ['is_fts_mmseqs', 'read_fts_mmseqs'],
+    'sugar/_io/tab/infernal.py': ['is_fts_infernal'],
+    'sugar/_io/tab/xsv.py': ['_is_fts_xsv', 'is_fts_csv', 'is_fts_tsv'],
+    'sugar/_io/tab/core.py': ['_headers_from_fmtstrings', 'read_tabular'],
+    'sugar/core/seq.py': ['BioSeq.write', 'BioSeq.tofmtstr', 'BioBasket.write', 'BioBasket.tofmtstr', 'BioBasket.fromfmtstr'],
+    'sugar/core/fts.py': ['Feature.write', 'FeatureList.write', 'FeatureList.tofmtstr'],
+}
 WHAT = {'seqs': 0, 'fts': 1}
 ENTRIES = {'write': 'EWrite', 'tofmtstr': 'ETofmtstr', 'objwrite': 'EObjWrite', 'objtofmtstr': 'EObjTofmtstr'}
 SEQ_EXAMPLE = '!data/example.gb'
@@ -427,6 +444,32 @@ def gen_cases(rng, tier):
         if rng.random() < 0.25:
             opts['sep'] = rng.choice([',', '\t', ' ', ';'])
         cases.append(detect_case(rng, content, rng.choice(['seqs', 'fts', 'fts']), opts=opts))
+    # --- renderer models of the soundness theorems against the real writers / the synthetic renderers
+    for _ in range(1200 if thorough else 150):
+        k = rng.choice(['tsv', 'csv', 'tsv', 'csv', 'fasta', 'stockholm', 'gff', 'hits'])
+        if k in ('tsv', 'csv'):
+            keys = rng.choice(['type start stop strand', 'start stop', 'type start len', 'seqid type start stop strand name', 'stop len type',
+                               'name start stop', 'locus start stop', 'len stop'])
+            cases.append({'kind': 'render', 'fmt': k, 'obj': r_fts(rng) * rng.choice([1, 1, 1, 30]), 'keys': keys})
+        elif k == 'fasta':
+            cases.append({'kind': 'render', 'fmt': k, 'obj': r_basket(rng)})
+        elif k == 'stockholm':
+            cases.append({'kind': 'render', 'fmt': k, 'obj': r_basket(rng, aligned=True)})
+        elif k == 'gff':
+            cases.append({'kind': 'render', 'fmt': k, 'obj': r_fts(rng), 'header': rng.choice([None, '#!x y\n'])})
+        else:
+            kind = rng.choice(['blast6', 'blast10', 'mmseqs0', 'blast6low'])
+            n = rng.choice([1, 2, 5, 40])
+            rows = [_hit(rng, frac=(kind == 'mmseqs0'), lowid=(kind == 'blast6low')) for _ in range(n)]
+            cases.append({'kind': 'render', 'fmt': 'hits', 'sep': ',' if kind == 'blast10' else '\t', 'rows': rows})
+    # --- a binary third-party plugin in front of the chain is skipped for text handles
+    for _ in range(300 if thorough else 40):
+        content = rng.choice([synth(rng, rng.choice(SYNTH)), r_adversarial(rng), 'ATG' + r_adversarial(rng), write_content(r_writer_case(rng))])
+        c = detect_case(rng, content, rng.choice(['seqs', 'fts']))
+        c['h'] = rng.choice(['str', 'filet'])
+        c['binplugin'] = True
+        c['_sig'] = _sig(c)
+        cases.append(c)
     # --- detect_ext
     import sugar._io.util as U
     exts = set(['gb', 'txt', 'FASTA', 'gz', 'tar.gz', '', 'f', 'fast', 'gff3', 'jsonl', 'stk ', 'Fa'])
@@ -449,7 +492,9 @@ def gen_cases(rng, tier):
     # --- resolve
     nr = 1500 if thorough else 250
     names = ['a.fasta', 'a.fasta.gz', 'a.gz', 'x.zip', 'x.tar.gz', 'x.tgz', 'x.tar', 'x.tar.bz2', 'x.txz', 'zip', 'a.zip.fasta', 'gz',
-             '-', '--', '- ', 'http://h/a.fa', 'ftp://h/a', 'a://', '0123456://x', '01234567://x', '012345678://x', 'a*.fa', 'a?.gz',
+             '-', '--', '- ', 'http://h/a.fa', 'ftp://h/a', 'a://', 'http://h/d/a.fa', 'https://h.org/x/y.fasta.gz', 'http://h/a.zip',
+             'ftp://h/p/q.tar.gz?dl=1', 'http://h/a*.zip', 'http://h', 'http://h/', 'file:///tmp/x.gz#frag', 'http://h/x.gff', 'x+y://h/a.tgz#f?g',
+             'http://h/a.zip?x=/b.fa', 'HTTP://H/A.GZ', 'a.b://h/c.gz/', 'http://h?q.zip', '0123456://x', '01234567://x', '012345678://x', 'a*.fa', 'a?.gz',
              'a[1].zip', 'a].fa', '*', 'd/**/x.*', '!data/example.gb', '!data/x.gz', '!data/*.gb', '!data/a.zip', '!dat/x', 'x!data/y',
              'a.GZ', 'a.gz ', '.gz', '.zip', 'dir.zip/a.fa', 'a.fasta.', 'tar.gz', 'x.tar.gzz', 'Xzip', '']
     archs = [None, None, None, True, 'gz', 'zip', 'tar', 'gztar', 'GZ', '']
@@ -461,7 +506,25 @@ def gen_cases(rng, tier):
         if t == 'Path' and nm == '':
             nm = 'p'
         cases.append({'kind': 'resolve', 'ft': t, 'name': nm if t in ('str', 'Path') else None, 'archive': rng.choice(archs),
-                      'entry': rng.choice(['read', 'iter_', 'read_fts']), 'fmt': rng.choice([None, 'auto'])})
+                      'entry': rng.choice(['read', 'iter_', 'read_fts']), 'fmt': rng.choice([None, 'auto']),
+                      'glob': rng.choice(['raise', 'raise', 'empty'])})
+    # --- detect_ext on non-string arguments, and the write-side decision
+    wnames = ['a.fasta', 'd/a.fa', 'a.stk', 'x.gff', 'x.tsv', 'x.csv', 'a.sjson', 'a.json', 'a.txt', 'a', 'a.FASTA', 'd.fasta/', 'a.fasta.gz',
+              '.fasta', 'a.b.gff', 'q/.gff', '']
+    for _ in range(nr // 2):
+        what = rng.choice(['seqs', 'fts'])
+        t = rng.choice(['str', 'str', 'Path', 'none', 'handle', 'bytes'])
+        nm = rng.choice(wnames)
+        if t == 'Path' and nm == '':
+            nm = 'p'
+        cases.append({'kind': 'extarg', 'what': what, 'ft': t, 'name': nm if t in ('str', 'Path') else None})
+        t = rng.choice(['str', 'str', 'str', 'Path', 'none', 'handle'])
+        fmts = [None, None, 'fasta', 'FASTA', 'stockholm', 'sjson', 'Gff'] if what == 'seqs' else [None, None, 'gff', 'tsv', 'CSV', 'Tsv']
+        arch = rng.choice([None, None, None, True, 'zip', 'gztar', 'tar'])
+        if arch is not None and nm.endswith('/'):
+            nm = nm + 'x.gff'          # the target inside the temporary directory must be a file name
+        cases.append({'kind': 'wresolve', 'what': what, 'ft': t, 'name': (nm or 'p') if t in ('str', 'Path') else None,
+                      'fmt': rng.choice(fmts), 'archive': arch})
     # --- kwargs
     nk = 1500 if thorough else 250
     keys = ['header', 'keys', 'sep', 'comments', 'foo', 'mode', 'tool', 'encoding', 'archive', 'fname', 'fmt', 'index', 'Mode']
@@ -488,6 +551,26 @@ class _Dec(Exception):
 
 
 def impl_detect(case):
+    if case.get('binplugin'):
+        import types
+        import sugar._io.main as M
+        from unittest import mock
+        fake = types.SimpleNamespace(binary_fmt=True, binary_fmt_fts=True, is_bintest=lambda f, **kw: f.read(3) == b'ATG',
+                                     is_fts_bintest=lambda f, **kw: f.read(3) == b'ATG')
+
+        class Eps:
+            def __init__(self, eps):
+                self.eps = eps
+
+            def __getitem__(self, fmt):
+                return types.SimpleNamespace(load=lambda: fake) if fmt == 'bintest' else self.eps[fmt]
+        with mock.patch.object(M, 'EPS', {k: Eps(v) for k, v in M.EPS.items()}), \
+             mock.patch.object(M, 'FMTS_ALL', {k: ['bintest'] + list(v) for k, v in M.FMTS_ALL.items()}):
+            return _impl_detect(case)
+    return _impl_detect(case)
+
+
+def _impl_detect(case):
     from sugar._io import detect
     from pathlib import Path
     content, off, h = case['content'], case['offset'], case['h']
@@ -544,11 +627,24 @@ def _datadir():
     return p[:-2]
 
 
+def _fname_arg(case, content=None):
+    from pathlib import PurePosixPath
+    t = case['ft']
+    if t == 'str':
+        return case['name']
+    if t == 'Path':
+        return PurePosixPath(case['name'])
+    if t == 'none':
+        return None
+    if t == 'bytes':
+        return b'>a\nA\n'
+    return io.StringIO(content or '')
+
+
 def impl_resolve(case):
     import sugar, glob as _glob
     import sugar._io.main as M
     from unittest import mock
-    from pathlib import PurePosixPath
     import requests
 
     def raiser(tag, n=1):
@@ -561,38 +657,132 @@ def impl_resolve(case):
             @staticmethod
             def read():
                 raise _Dec(['stdin'])
-    t = case['ft']
-    if t == 'str':
-        arg = case['name']
-    elif t == 'Path':
-        arg = PurePosixPath(case['name'])
-    elif t == 'none':
-        arg = None
-    elif t == 'bytes':
-        arg = b'>a\nA\n'
-    else:
-        arg = io.StringIO('>a\nACGT\n' if case['entry'] != 'read_fts' else '##gff-version 3\nx\t.\tCDS\t1\t5\t.\t+\t.\tID=a\n')
+    content = '>a\nACGT\n' if case['entry'] != 'read_fts' else '##gff-version 3\nx\t.\tCDS\t1\t5\t.\t+\t.\tID=a\n'
+
+    class FakeResponse:
+        content = None
+
+        def raise_for_status(self):
+            pass
+    FakeResponse.content = content.encode()
+    urls = []
+
+    def fake_get(url, *a, **k):
+        urls.append(url)
+        return FakeResponse()
+
+    def fake_glob(pattern, *a, **k):
+        if case.get('glob') == 'empty':
+            return []
+        raise _Dec(['glob', pattern])
+    tmpnames = []
+    real_ntf = tempfile.NamedTemporaryFile
+
+    def fake_ntf(*a, **k):
+        f = real_ntf(*a, dir='/tmp', prefix='C03-', **k)
+        tmpnames.append(f.name)
+        return f
+    arg = _fname_arg(case, content)
     kw = {}
     if case['archive'] is not None:
         kw['archive'] = case['archive']
     fn = {'read': sugar.read, 'iter_': sugar.iter_, 'read_fts': sugar.read_fts}[case['entry']]
     fmt = None if case['fmt'] == 'auto' else ('gff' if case['entry'] == 'read_fts' else 'fasta')
-    with mock.patch.object(_glob, 'glob', raiser('glob')), \
-         mock.patch.object(shutil, 'unpack_archive', raiser('archive', 2)), \
-         mock.patch.object(gzip, 'open', raiser('gz')), \
-         mock.patch.object(M, 'open', raiser('plain'), create=True), \
-         mock.patch.object(sys, 'stdin', FakeStdin), \
-         mock.patch.object(requests, 'get', raiser('urlx')):
+    try:
+        with mock.patch.object(_glob, 'glob', fake_glob), \
+             mock.patch.object(shutil, 'unpack_archive', raiser('archive', 2)), \
+             mock.patch.object(gzip, 'open', raiser('gz')), \
+             mock.patch.object(gzip, 'decompress', raiser('urlgz', 0)), \
+             mock.patch.object(M, 'open', raiser('plain'), create=True), \
+             mock.patch.object(sys, 'stdin', FakeStdin), \
+             mock.patch.object(tempfile, 'NamedTemporaryFile', fake_ntf), \
+             mock.patch.object(requests, 'get', fake_get):
+            try:
+                r = fn(arg, fmt, **kw) if arg is not None or fmt or kw else fn()
+                if case['entry'] == 'iter_':
+                    r = list(r)
+                if urls:
+                    return ['url', 'data'] if len(r) == 1 else ['url', 'returned %d' % len(r)]
+                return ['handle'] if case['ft'] == 'handle' and len(r) == 1 else ['returned']
+            except _Dec as e:
+                d = e.d
+                if urls:
+                    if d[0] == 'urlgz':
+                        return ['url', 'gz']
+                    # the download was saved as /tmp/C03-<8 random characters><bname> and resolved again
+                    assert len(tmpnames) == 1 and d[1] == tmpnames[0], (d, tmpnames)
+                    bname = os.path.basename(d[1])[len('C03-') + 8:]
+                    return ['url', d[0], bname] + d[2:]
+                return d
+    finally:
+        for t in tmpnames:
+            if os.path.exists(t):
+                os.remove(t)
+
+
+def impl_extarg(case):
+    from sugar._io import detect_ext
+    return detect_ext(_fname_arg(case), case['what'])
+
+
+def _first_archive():
+    return shutil.get_archive_formats()[0][0]
+
+
+def impl_wresolve(case):
+    import sugar._io.main as M
+    from unittest import mock
+    what = case['what']
+    obj = mk_basket([{'id': 'a', 'data': 'ACGT'}]) if what == 'seqs' else mk_fts([{'type': 'CDS', 'start': 0, 'stop': 5, 'strand': '+'}])
+    used = []
+
+    class Rec:
+        def __init__(self, eps):
+            self.eps = eps
+
+        def __getitem__(self, fmt):
+            used.append(fmt)
+            return self.eps[fmt]
+
+    def fake_open(name, *a, **k):
+        raise _Dec(['file', name])
+
+    def fake_make_archive(name, arch, root, *a, **k):
+        assert len(os.listdir(root)) == 1, 'exactly one file is packed'
+        raise _Dec(['archive', name, arch, os.listdir(root)[0]])
+    arg = _fname_arg(case)
+    kw = {}
+    if case['archive'] is not None:
+        kw['archive'] = case['archive']
+    real_binary = M._binary
+    chosen = []
+
+    def rec_binary(module, *a, **k):
+        # write()/write_fts() call _binary(module) once, right after loading the plugin of the chosen format
+        if not chosen:
+            chosen.append(used[-1])
+        return real_binary(module, *a, **k)
+    patches = [mock.patch.object(M, 'EPS', {k: Rec(v) for k, v in M.EPS.items()}),
+               mock.patch.object(M, '_binary', rec_binary),
+               mock.patch.object(shutil, 'make_archive', fake_make_archive)]
+    if case['archive'] is None:
+        patches.append(mock.patch.object(M, 'open', fake_open, create=True))
+    with contextlib.ExitStack() as st:
+        for p_ in patches:
+            st.enter_context(p_)
         try:
-            r = fn(arg, fmt, **kw) if arg is not None or fmt or kw else fn()
-            if case['entry'] == 'iter_':
-                r = list(r)
-            return ['handle'] if t == 'handle' and len(r) == 1 else ['returned']
+            r = obj.write(arg, case['fmt'], **kw)
         except _Dec as e:
             d = e.d
-            if d[0] == 'urlx':
-                return ['url']
-            return d
+            if d[0] == 'archive':
+                assert d[3] == os.path.basename(d[1]), 'the packed file is named like the target'
+                return d[:3] + chosen[:1]
+            return d + chosen[:1]
+        if arg is None:
+            assert isinstance(r, str) and r
+            return ['tostr'] + chosen[:1]
+        assert arg.getvalue(), 'nothing written to the handle'
+        return ['handle'] + chosen[:1]
 
 
 def impl_kw(case):
@@ -625,6 +815,45 @@ def impl_kw(case):
     return [[k, json.dumps(v)] for k, v in got[0].items()]
 
 
+def _xsv_rows(case):
+    """Field texts of the feature table, from first principles: start/stop of the feature range, len, strand, else metadata;
+    missing values are empty."""
+    rows = []
+    for f in case['obj']:
+        row = []
+        for k in case['keys'].split():
+            v = {'start': f['start'], 'stop': f['stop'], 'len': f['stop'] - f['start'], 'strand': f['strand']}.get(k, f.get(k))
+            row.append('' if v is None else str(v))
+        rows.append(row)
+    return rows
+
+
+def _fasta_recs(case):
+    recs = []
+    for s_ in case['obj']:
+        hd = ''
+        if 'header' in s_:
+            rest = s_['header'][len(s_['id']):] if s_['header'].startswith(s_['id']) else s_['header']
+            hd = (' ' + rest.lstrip()).rstrip()
+        recs.append([s_['id'], hd, s_['data']])
+    return recs
+
+
+def impl_render(case):
+    fmt = case['fmt']
+    if fmt in ('tsv', 'csv'):
+        return mk_fts(case['obj']).tofmtstr(fmt, keys=case['keys'])
+    if fmt == 'fasta':
+        return mk_basket(case['obj']).tofmtstr('fasta')
+    if fmt == 'stockholm':
+        return mk_basket(case['obj']).tofmtstr('stockholm')
+    if fmt == 'gff':
+        kw = {'header': case['header']} if case.get('header') else {}
+        return mk_fts(case['obj']).tofmtstr('gff', **kw)
+    # the synthetic hit-table renderer of this harness
+    return ''.join(case['sep'].join(r) + '\n' for r in case['rows'])
+
+
 def impl(case):
     k = case['kind']
     if k == 'detect':
@@ -638,8 +867,14 @@ def impl(case):
         return impl_ext(case)
     if k == 'resolve':
         return impl_resolve(case)
+    if k == 'extarg':
+        return impl_extarg(case)
+    if k == 'wresolve':
+        return impl_wresolve(case)
     if k == 'kw':
         return impl_kw(case)
+    if k == 'render':
+        return impl_render(case)
     if k == 'writerfail':
         return {'e': case['err']}
     if k == 'transport':
@@ -655,6 +890,9 @@ def _optbyte(c):
 
 def model_term(case):
     k = case['kind']
+    if k == 'detect' and case.get('binplugin'):
+        return 'out (run_C03_detect_bin %s %s %s %s)' % (coq_N(WHAT[case['what']]), coq_bool(case['h'] in ('bytes', 'fileb', 'path', 'Path')),
+                                                        coq_nat(case['offset']), coq_bs(case['content']))
     if k == 'detect':
         binary = case['h'] in ('bytes', 'fileb', 'path', 'Path')
         return 'out (run_C03_detect %s %s %s %s %s %s %s)' % (
@@ -662,7 +900,7 @@ def model_term(case):
             coq_nat(case['offset']), coq_bs((case.get('origin') or '') if _pristine(case) else ''), coq_bs(case['content']))
     if k == 'ext':
         return 'out (run_C03_ext %s %s)' % (coq_N(WHAT[case['what']]), coq_bs(case['fname']))
-    if k == 'resolve':
+    if k in ('resolve', 'extarg', 'wresolve'):
         from pathlib import PurePosixPath
         t = case['ft']
         f = {'bytes': 'FBytes', 'none': 'FNone', 'handle': 'FHandle'}.get(t)
@@ -670,13 +908,33 @@ def model_term(case):
             f = '(FStr %s)' % coq_bs(case['name'])
         elif t == 'Path':
             f = '(FPath %s)' % coq_bs(str(PurePosixPath(case['name'])))
+        if k == 'extarg':
+            return 'out (run_C03_ext_arg %s %s)' % (coq_N(WHAT[case['what']]), f)
         a = case['archive']
         arch = 'ANone' if a is None else 'ATrue' if a is True else '(AStr %s)' % coq_bs(a)
+        if k == 'wresolve':
+            return 'out (run_C03_wresolve %s %s %s %s %s)' % (coq_N(WHAT[case['what']]), coq_bs(_first_archive()), f,
+                                                             coq_opt(case['fmt'], coq_bs), arch)
         ex = FTS_EXAMPLE if case['entry'] == 'read_fts' else SEQ_EXAMPLE
-        return 'out (run_C03_resolve %s %s %s %s)' % (coq_bs(_datadir()), coq_bs(ex), f, arch)
+        return 'out (run_C03_resolve %s %s %s %s %s)' % (coq_bs(_datadir()), coq_bs(ex), f, arch, coq_bool(case.get('glob') == 'empty'))
     if k == 'kw':
         kw = coq_list(['(%s, %s)' % (coq_bs(a), coq_bs(json.dumps(b))) for a, b in case['kw']])
         return 'out (run_C03_kw %s %s %s)' % (coq_N(WHAT[case['what']]), ENTRIES[case['entry']], kw)
+    if k == 'render':
+        fmt = case['fmt']
+        if fmt in ('tsv', 'csv'):
+            return 'out (run_C03_render_xsv %s %s %s)' % ('x09' if fmt == 'tsv' else 'x2c', coq_list([coq_bs(x) for x in case['keys'].split()]),
+                                                         coq_list([coq_list([coq_bs(x) for x in r]) for r in _xsv_rows(case)]))
+        if fmt == 'fasta':
+            return 'out (run_C03_render_fasta %s)' % coq_list(['(%s, %s, %s)' % tuple(coq_bs(x) for x in r) for r in _fasta_recs(case)])
+        if fmt == 'stockholm':
+            return 'out (run_C03_render_stockholm %s)' % coq_list([coq_bs('%s %s' % (s_['id'], s_['data'])) for s_ in case['obj']])
+        if fmt == 'gff':
+            text = impl_render(case)
+            pre = '##gff-version 3\n' + (case.get('header') or '')
+            body = text[len(pre):] if text.startswith(pre) else 'WRITER OUTPUT DOES NOT START WITH THE PRAGMA AND HEADER'
+            return 'out (run_C03_render_gff %s %s)' % (coq_bs(case.get('header') or ''), coq_bs(body))
+        return 'out (run_C03_render_hits %s %s)' % ('x%02x' % ord(case['sep']), coq_list([coq_list([coq_bs(x) for x in r]) for r in case['rows']]))
     if k in ('writerfail', 'transport'):
         return 'out (VL [VB true; VNone])'
     raise ValueError(k)
@@ -747,7 +1005,13 @@ def nontrivial(case, got):
     if k == 'ext':
         return 'ext:%s' % got if got else None
     if k == 'resolve':
-        return 'resolve:%s' % got[0] if isinstance(got, list) and got[0] != 'plain' else None
+        return 'resolve:%s' % ':'.join(map(str, got[:2] if got[0] == 'url' else got[:1])) if isinstance(got, list) and got[0] != 'plain' else None
+    if k == 'wresolve':
+        return 'wresolve:%s' % (got[0] if isinstance(got, list) else got.get('e'))
+    if k == 'extarg':
+        return 'extarg:%s' % case['ft']
+    if k == 'render':
+        return 'render:%s:%s' % (case['fmt'], 'long' if isinstance(got, str) and len(got) > 1000 else 'short')
     if k == 'kw':
         return 'kw' if any(a in ('mode', 'tool', 'encoding', 'archive', 'fname', 'fmt') for a, _ in case['kw']) else None
     return None
@@ -765,7 +1029,9 @@ def histkey(case, got):
         if case['offset']:
             keys.append('offset>0')
     elif k == 'resolve':
-        keys.append('resolve->%s' % (got[0] if isinstance(got, list) and got else 'exc'))
+        keys.append('resolve->%s' % ('/'.join(map(str, got[:2] if got[0] == 'url' else got[:1])) if isinstance(got, list) and got else 'exc'))
+    elif k == 'wresolve':
+        keys.append('wresolve->%s' % (got[0] if isinstance(got, list) and got else 'exc'))
     elif k == 'kw':
         keys.append('entry=' + case['entry'])
     return keys
@@ -886,6 +1152,9 @@ def transports(content, what, fmt, rkw, d, cov):
         yield 'iter_', _cj(BioBasket(list(sugar.iter_(p, **rkw))))
         yield 'iter_ bytesio', _cj(BioBasket(list(sugar.iter_(io.BytesIO(raw), **rkw))))
         yield 'iter_ gz', _cj(BioBasket(list(sugar.iter_(pgz, **rkw))))
+        yield 'iter_ glob', _cj(BioBasket(list(sugar.iter_(os.path.join(d, 'one', '*.' + ext), **rkw))))
+        two = list(sugar.iter_(os.path.join(d, 'two', '?.' + ext), **rkw))
+        yield 'iter_ glob over two files', _cj(BioBasket(two[:len(two) // 2])) if _cj(BioBasket(two[:len(two) // 2])) == _cj(BioBasket(two[len(two) // 2:])) else 'NOT TWICE THE FILE'
         yield 'fromfmtstr str', _cj(BioBasket.fromfmtstr(content, **rkw))
         yield 'fromfmtstr bytes', _cj(BioBasket.fromfmtstr(raw, **rkw))
     cov['transport_reads'] = cov.get('transport_reads', 0) + 1
@@ -1004,21 +1273,30 @@ def extra_checks(rng, tier, cov):
     cov['transport_note'] = 'transport independence is relational testing only (partial)'
 
 
-LEVEL_TEXT = ('Machine-checked Coq theorems over an executable model of sugar._io detection: detect() restores the position of any '
-              'handle and equals "first accepting sniffer of the regenerated FMTS_ALL chain" on the remaining content for text and binary '
-              'handles; contents with the first-line shape of the FASTA, Stockholm, GFF3, SJSON and GenBank writers/renderers are detected '
-              'as that format under every option record (seq chain: all five; feature chain: GFF, GenBank); every declared filename '
-              'extension selects its own format (finite theorem over the regenerated tables + a general splitext lemma); keyword '
-              'options reach the plugin unchanged and identically through write, tofmtstr and the object methods; the _resolve_fname '
-              'decision (glob > archive > gzip > plain) is specified. Model and code are tied on every run by differential testing '
-              '(sniffers incl. one-line read_tabular with exact int()/float() literal semantics, detect_ext, resolve decision, kwargs). '
-              'Transport independence (path, Path, handles, gzip, zip/tar archives, glob, iter_/read, fromfmtstr, CLI convert/convertf, '
-              'write variants) is relational testing only.')
+LEVEL_TEXT = ('Machine-checked Coq theorems (19, no axioms) over an executable model of sugar._io detection: detect() restores the '
+              'position of any handle and equals "first accepting sniffer of the regenerated FMTS_ALL chain" on the remaining content '
+              'for text and binary handles; FASTA / Stockholm / GFF3 output of writer models (first line as a function of the object) and '
+              'contents with the SJSON / GenBank first-line shape are detected as that format under every option record; TSV and CSV '
+              'written by sugar (writer model render_xsv, compared with the real pandas output on every run) are detected as tsv / csv '
+              'for tables of ANY length, incl. beyond the 1000-character sniffing window whose last cut line is dropped, with rejection '
+              'lemmas for every earlier sniffer of the chain (gff, genbank, infernal, mmseqs, blast; for csv also tsv); the documented '
+              'BLAST/MMseqs2 discriminator is proved at sniffer level (on a well-formed 12-column first line is_fts_mmseqs / '
+              'is_fts_blast return exactly the fraction / percentage range test of the identity column, with exact float() rounding '
+              'thresholds); every declared filename extension selects its own format (finite theorem over regenerated tables + general '
+              'splitext lemma); keyword options reach the plugin unchanged and identically through write, tofmtstr and the object '
+              'methods; the _resolve_fname decision (glob > archive > gzip > plain) is specified. Model and code are tied on every run '
+              'by differential testing of every modelled function (all reachable statements executed in the quick tier). Transport '
+              'independence (path, Path, handles, gzip, zip/tar archives, glob, iter_/read, fromfmtstr, CLI convert/convertf, write '
+              'variants) is relational testing only.')
 LEVEL_NOTE = ('PARTIAL: (1) transport independence is tested, not proved (gzip/shutil/glob/tempfile/TextIOWrapper are trusted CPython); '
-              '(2) detect soundness for tsv, csv, BLAST 6/7/10, MMseqs2 0/4 and Infernal 1/2/3 contents is covered by the model/code '
-              'correspondence and the python oracle only (theorem C03_detect_fts_sound_partial covers GFF and GenBank); '
-              '(3) the shape predicates are first-line characterisations checked against the real writers on every run, not derived from '
-              'writer models. Domain: printable ASCII + tab + newline contents, sep absent or one character, non-empty collections, '
-              'first BLAST hit with identity > 1 %, outfmt 10 with sep=",". URL branch not exercised. All theorems closed under the '
-              'global context (no axioms).')
+              '(2) whole-chain detect soundness for BLAST 6/7/10, MMseqs2 0/4 and Infernal 1/2/3 renderings is covered by the model/code '
+              'correspondence and the python oracle only -- proved is the sniffer-level discriminator '
+              '(C03_hit_table_discriminator_partial); (3) TSV theorem needs >= 4 columns, both xsv theorems exclude exactly-12-column '
+              'headers and a first column named locus* (guards spelled in wf_xsv); (4) SJSON / GenBank soundness is over first-line shape '
+              'predicates checked against the real writer / renderer on every run, not over writer models. Domain: printable ASCII + tab '
+              '+ newline contents, sep absent or one character, non-empty collections, first BLAST hit with identity > 1 %, outfmt 10 with '
+              'sep=",". URL download branch exercised with a stubbed requests.get only. Statement coverage of the modelled functions: only '
+              'the def/decorator lines (executed at import time, before measurement starts) are never hit; main.py:67 (binary plugin '
+              'skipped for a text handle) is reached with a stub plugin registered by the harness; sugar/_io/tab/core.py is modelled but '
+              'not an anchored file, so its coverage is not reported. All theorems closed under the global context (no axioms).')
 TECHNIQUE = 'Coq proof over an executable model + regenerated tables + differential correspondence + relational transport testing'
